@@ -1,10 +1,14 @@
 package main
 
 import (
+	"bytes"
+	"encoding/json"
 	"flag"
 	"fmt"
 	"hash/fnv"
+	"io"
 	"os"
+	"os/exec"
 	"sort"
 	"strings"
 	"time"
@@ -533,7 +537,11 @@ func c10Main(args []string) {
 	canonical := fs.Bool("canonical", false, "force the canonical order in every session (cross-process / pristine comparison); records a digest per key")
 	evlog := fs.Bool("evlog", false, "record a full event log (determinism self-test)")
 	known := fs.String("known", "", "violation classes (separated by ;;) that are listed known findings: recorded, exploration continues")
+	isoOut := fs.String("isolate-out", "", "canonical mode: write sampled keys (texts + in-session result) for the isolated fresh-process oracle")
+	isoCap := fs.Int("isolate-cap", 600, "at most this many keys in --isolate-out")
 	fs.Parse(args)
+	var isoKeys []isoKey
+	isoSeen := map[uint64]bool{}
 	knownSet := map[string]bool{}
 	for _, k := range strings.Split(*known, ";;") {
 		if k != "" {
@@ -668,6 +676,16 @@ func c10Main(args []string) {
 				h := hashStr(o.Rendering)
 				if *canonical {
 					st.CanonDigest[fmt.Sprintf("%016x", tk)] = h
+					if *isoOut != "" && !isoSeen[tk] && len(isoKeys) < *isoCap {
+						isoSeen[tk] = true
+						k := isoKey{TK: fmt.Sprintf("%016x", tk), Kind: "V", SchemaName: s.Schemas[si].Name, Schema: s.Schemas[si].Text, Hash: h, Rendering: firstN(o.Rendering, 2000), Session: sseed, Source: src, Op: o.Op, ObsKey: o.Key}
+						if strings.HasPrefix(o.Key, "L|") {
+							k.Kind = "L"
+						} else {
+							k.Doc = s.Docs[di]
+						}
+						isoKeys = append(isoKeys, k)
+					}
 				}
 				g, ok := global[tk]
 				if !ok {
@@ -721,7 +739,149 @@ func c10Main(args []string) {
 	sort.Slice(st.EffectiveHashes, func(i, j int) bool { return st.EffectiveHashes[i] < st.EffectiveHashes[j] })
 	st.Probes["panics_recovered"] = panicsSeen
 	st.WallS = time.Since(t0).Seconds()
+	if *isoOut != "" {
+		writeJSON(*isoOut, isoKeys)
+	}
 	writeJSON(*out, st)
+}
+
+// ---------- isolated fresh-process oracle ----------
+
+// isoKey is one (schema text[, document text]) key together with the result it
+// got inside a session, i.e. after whatever that process had done before.
+type isoKey struct {
+	TK         string `json:"tk"`
+	Kind       string `json:"kind"` // L | V
+	SchemaName string `json:"schema_name"`
+	Schema     string `json:"schema"`
+	Doc        string `json:"doc,omitempty"`
+	Hash       uint64 `json:"hash"`
+	Rendering  string `json:"rendering"`
+	Session    uint64 `json:"session"`
+	Source     string `json:"source"`
+	Op         int    `json:"op"`
+	ObsKey     string `json:"obs_key"`
+}
+
+type isoMismatch struct {
+	Key      isoKey `json:"key"`
+	Isolated string `json:"isolated_rendering"`
+	Rule     string `json:"rule"`
+}
+
+// evalIsolated computes the result for a key as the first library calls of
+// this process.
+func evalIsolated(k *isoKey) string {
+	var out string
+	p := protect(func() {
+		sc, err := gqlparser.LoadSchema(&ast.Source{Name: k.SchemaName, Input: k.Schema})
+		if k.Kind == "L" {
+			out = gen.RenderError(err)
+			return
+		}
+		if err != nil {
+			out = "schema does not load: " + gen.RenderError(err)
+			return
+		}
+		_, errs := validateText(sc, k.Doc)
+		out = gen.RenderErrors(errs)
+	})
+	if p != "" {
+		return p
+	}
+	return out
+}
+
+// c10OneMain: evaluate exactly one key read from stdin; nothing else has
+// happened in this process.
+func c10OneMain(args []string) {
+	var k isoKey
+	b, err := io.ReadAll(os.Stdin)
+	if err != nil || json.Unmarshal(b, &k) != nil {
+		fatal(2, "c10-one: bad input")
+	}
+	os.Stdout.WriteString(evalIsolated(&k))
+}
+
+// c10IsolatedMain: for the keys of --in assigned to this part, spawn one fresh
+// process per key and compare its result with the in-session one.
+func c10IsolatedMain(args []string) {
+	fs := flag.NewFlagSet("c10-isolated", flag.ExitOnError)
+	in := fs.String("in", "", "keys file written by c10 --canonical --isolate-out")
+	part := fs.Int("part", 0, "this part")
+	parts := fs.Int("parts", 1, "number of parts")
+	out := fs.String("out", "-", "result file")
+	fs.Parse(args)
+	var keys []isoKey
+	readJSON(*in, &keys)
+	compared := 0
+	var bad []isoMismatch
+	for i := range keys {
+		if i%*parts != *part {
+			continue
+		}
+		k := keys[i]
+		if len(k.Rendering) >= 2000 {
+			continue // truncated in the file; hash alone cannot be shown as a witness, compare by hash below
+		}
+		b, _ := json.Marshal(k)
+		cmd := exec.Command(os.Args[0], "c10-one")
+		cmd.Stdin = bytes.NewReader(b)
+		var so, se bytes.Buffer
+		cmd.Stdout, cmd.Stderr = &so, &se
+		if err := cmd.Run(); err != nil {
+			fatal(2, "c10-isolated: child failed for key %s: %v\n%s", k.TK, err, se.String())
+		}
+		compared++
+		if hashStr(so.String()) != k.Hash {
+			x, y := firstDiffLine(k.Rendering, so.String())
+			rule := ruleOfLine(x)
+			if x == "" {
+				rule = ruleOfLine(y)
+			}
+			bad = append(bad, isoMismatch{Key: k, Isolated: so.String(), Rule: rule})
+		}
+	}
+	writeJSON(*out, map[string]interface{}{"compared": compared, "mismatches": bad})
+}
+
+// c10HistoryReplayMain replays a history-dependence witness: the session is
+// re-run in this process (same history as when it was found) and the key is
+// evaluated again in a fresh process; the violation reproduces when the two
+// still differ.
+func c10HistoryReplay(rp *c10Replay) bool {
+	r := runSession(rp.Session, false)
+	var inSession string
+	found := false
+	for _, o := range r.obs {
+		if o.Key == rp.HistoryKey.Key && o.Op == rp.HistoryKey.Op {
+			inSession, found = o.Rendering, true
+		}
+	}
+	if !found {
+		fatal(2, "history replay: the session no longer produces observation %s at op %d", rp.HistoryKey.Key, rp.HistoryKey.Op)
+	}
+	k := rp.HistoryKey.Iso
+	b, _ := json.Marshal(k)
+	cmd := exec.Command(os.Args[0], "c10-one")
+	cmd.Stdin = bytes.NewReader(b)
+	var so bytes.Buffer
+	cmd.Stdout = &so
+	if err := cmd.Run(); err != nil {
+		fatal(2, "history replay: child failed: %v", err)
+	}
+	if so.String() != inSession {
+		x, y := firstDiffLine(inSession, so.String())
+		fmt.Printf("REPRODUCED class=%s\n  key=%s op %d: after this session's history vs alone in a fresh process\n  %s  <>  %s\n", rp.Class, rp.HistoryKey.Key, rp.HistoryKey.Op, x, y)
+		return true
+	}
+	return false
+}
+
+type historyKey struct {
+	Key string `json:"key"` // observation key inside the session (L|i or V|i|j)
+	Op  int    `json:"op"`
+	Iso isoKey `json:"texts"`
 }
 
 const fnvPrime64 = 0x100000001b3
@@ -779,6 +939,7 @@ type c10Replay struct {
 	Site      string   `json:"site"`
 	Replay    bool     `json:"replayable"`
 	Confirmed string   `json:"confirmed_on_real_runtime,omitempty"`
+	HistoryKey *historyKey `json:"history_key,omitempty"`
 	Note      string   `json:"note,omitempty"`
 }
 
@@ -1077,15 +1238,29 @@ func c10ReplayMain(args []string) {
 		fatal(2, "replay file has no session")
 	}
 	if instrumented() {
-		for _, op := range rp.Session.Ops {
+		// an order rule naming a map-range site that this tree does not have is
+		// inapplicable (the iteration it perturbed is gone): it is dropped, and the
+		// rest of the replay decides
+		for i, op := range rp.Session.Ops {
+			var keep []OrderRuleJ
 			for _, r := range op.Orders {
 				if siteID(r.Site) < 0 {
-					fatal(2, "replay does not match this tree: site %s not found", r.Site)
+					fmt.Printf("note: map-range site %s does not exist in this tree; its order rule is inapplicable and skipped\n", r.Site)
+					continue
 				}
+				keep = append(keep, r)
 			}
+			rp.Session.Ops[i].Orders = keep
 		}
 	}
 	rp.Session.Explicit = true
+	if rp.HistoryKey != nil {
+		if c10HistoryReplay(&rp) {
+			os.Exit(1)
+		}
+		fmt.Println("NOT-REPRODUCED")
+		return
+	}
 	r := runSession(rp.Session, false)
 	w := checkObs(rp.Session, r.obs)
 	res := map[string]interface{}{"reproduced": w != nil}
@@ -1206,4 +1381,62 @@ func c10ConfirmMain(args []string) {
 	}
 	sort.Strings(rs)
 	writeJSON(*out, map[string]interface{}{"distinct": len(rs), "renderings": rs, "instrumented": instrumented()})
+}
+
+
+// c10HistoryWitnessMain turns one isolated-oracle mismatch into a minimised
+// replay file. Every candidate runs in a fresh process (the state that makes
+// the result history-dependent lives in the process).
+func c10HistoryWitnessMain(args []string) {
+	fs := flag.NewFlagSet("c10-history-witness", flag.ExitOnError)
+	in := fs.String("in", "", "mismatch (JSON, one isoMismatch)")
+	out := fs.String("out", "", "replay file to write")
+	budget := fs.Duration("budget", 60*time.Second, "minimisation budget")
+	fs.Parse(args)
+	var m isoMismatch
+	readJSON(*in, &m)
+	sess := genSession(m.Key.Session, m.Key.Source)
+	sess.Weights = [5]uint8{}
+	sess.Mix = "canonical"
+	sess.Explicit = true
+	class := "disagree-history|rule=" + m.Rule
+	rp := &c10Replay{Format: "verif-c10-history/1", Property: "C10", Class: class, Session: sess, Replay: true,
+		HistoryKey: &historyKey{Key: m.Key.ObsKey, Op: m.Key.Op, Iso: m.Key},
+		Witness:    &Witness{Key: m.Key.ObsKey, Kind: "history", OpLater: m.Key.Op, RenderingFirst: m.Isolated, RenderingLater: m.Key.Rendering, FirstDiffLine: "alone in a fresh process  <>  after the session's earlier operations", Rule: m.Rule},
+		Note:       "the same texts give a different result depending on what the process did before: rendering_first is the key evaluated alone in a fresh process, rendering_later the same key at op_later of this session"}
+	tmp := *out + ".cand.json"
+	try := func(c *c10Replay) bool {
+		writeJSON(tmp, c)
+		cmd := exec.Command(os.Args[0], "c10-replay", tmp)
+		o, _ := cmd.CombinedOutput()
+		return strings.Contains(string(o), "REPRODUCED class="+class)
+	}
+	if !try(rp) {
+		os.Remove(tmp)
+		fatal(3, "history witness does not reproduce in a fresh process")
+	}
+	deadline := time.Now().Add(*budget)
+	// drop operations other than the witness op, newest first
+	for i := len(rp.Session.Ops) - 1; i >= 0 && time.Now().Before(deadline); i-- {
+		if i == rp.HistoryKey.Op {
+			continue
+		}
+		c := *rp
+		c.Session = cloneSession(rp.Session)
+		c.Session.Ops = append(c.Session.Ops[:i], c.Session.Ops[i+1:]...)
+		hk := *rp.HistoryKey
+		if i < hk.Op {
+			hk.Op--
+		}
+		c.HistoryKey = &hk
+		if try(&c) {
+			w := *rp.Witness
+			w.OpLater = hk.Op
+			c.Witness = &w
+			rp = &c
+		}
+	}
+	os.Remove(tmp)
+	writeJSON(*out, rp)
+	fmt.Printf("history witness: %d operations remain\n", len(rp.Session.Ops))
 }
